@@ -14,7 +14,8 @@ EXPLANATION = (
     "prefix is folded too; inflate() passes the call's whole output and update_checksum = wrap & 4. WHO: wrap's bit 2 is cleared "
     "only by validate(false), sync and reset_with_config. That the checksum functions compute the right value is C09's; the "
     "arithmetic of out_written is not decided. "
-    "PAIR/handover-after-suspension (arms Check and Length): the trailer arms name Done/Length only after their last input request, so a trailer split across calls is still compared.")
+    "PAIR/handover-after-suspension (arms Check and Length): the trailer arms name Done/Length only after their last input request, so a trailer split across calls is still compared. "
+    "GUARD/checksum-update: the flag that requests Window::extend (which advances the check value) is set from `window.size() != 0`, never from the window's fill.")
 
 CLAIM = dict(
     text="Static: mode-graph reachability (StreamEnd only through Check then Length), cut-set proofs that the trailer "
